@@ -9,6 +9,7 @@
 # include "config.h"
 #endif
 #include <pthread.h>
+#include <sched.h>
 #include <stddef.h>
 #include <stdlib.h>
 #include <qthread/qthread-int.h>
@@ -26,7 +27,20 @@ static inline void c14_log(void *l, char k)
 }
 #undef QTHREAD_FASTLOCK_LOCK
 #undef QTHREAD_FASTLOCK_UNLOCK
-#define QTHREAD_FASTLOCK_LOCK(x)   do { c14_real_lock(x); c14_log((x), 'L'); } while (0)
+/* window test (command W): one thread can be held right before it acquires a given lock, i.e. after everything it read
+ * without the lock; another thread then performs a whole operation; then the held one continues */
+static volatile int   c14_hold_state = 0;           /* 0 off, 1 armed, 2 held, 3 released */
+static volatile int   c14_hold_tid   = -1;
+static void *volatile c14_hold_lock  = NULL;
+static __thread int   c14_me         = -1;
+static inline void c14_hold_point(void *l)
+{
+    if (c14_hold_state == 1 && c14_me == c14_hold_tid && l == c14_hold_lock) {
+        c14_hold_state = 2;
+        while (c14_hold_state != 3) sched_yield();
+    }
+}
+#define QTHREAD_FASTLOCK_LOCK(x)   do { c14_hold_point((void *)(x)); c14_real_lock(x); c14_log((x), 'L'); } while (0)
 #define QTHREAD_FASTLOCK_UNLOCK(x) do { c14_log((x), 'U'); c14_real_unlock(x); } while (0)
 #include "mpool.c"
 #include "qthread/qpool.h"
@@ -134,6 +148,7 @@ static pthread_t       thr[MAXT];
 static void *worker(void *arg)
 {
     int me = (int)(intptr_t)arg;
+    c14_me = me;
     for (;;) {
         pthread_mutex_lock(&mu);
         while (!jobs[me].pending) pthread_cond_wait(&cv, &mu);
@@ -288,6 +303,38 @@ int main(void)
             memset(tcs[a], 0, sizeof tcs[a]);
             if (!pools[a]) { printf("C null\n"); continue; }
             printf("C %zu %zu %zu %zu\n", pools[a]->item_size, pools[a]->alignment, pools[a]->alloc_size, pools[a]->items_per_alloc);
+        } else if (line[0] == 'W' && sscanf(line + 1, "%lu %lu %lu", &a, &b, &c) == 3 && a < MAXP && b < MAXT && c < MAXT && b != c && pools[a] && nblk + 2 < MAXLIVE) {
+            /* W pid t1 t2: t1's alloc is held right before it takes the pool's reuse_lock (after its unlocked look at the
+             * shared reuse list); t2 performs a whole alloc; t1 continues.  Two A lines are printed in lock order: t2, t1. */
+            void *r1 = NULL, *r2 = NULL;
+            c14_hold_tid = (int)b; c14_hold_lock = (void *)&pools[a]->reuse_lock; __sync_synchronize(); c14_hold_state = 1;
+            pthread_mutex_lock(&mu);
+            jobs[b].kind = 'A'; jobs[b].pid = (int)a; jobs[b].mem = NULL; jobs[b].pending = 1;
+            pthread_cond_broadcast(&cv);
+            pthread_mutex_unlock(&mu);
+            for (long spin = 0; c14_hold_state != 2 && jobs[b].pending && spin < 200000000L; spin++) sched_yield();
+            int held = c14_hold_state == 2;
+            run_on((int)c, 'A', (int)a, NULL, &r2);
+            char ev2[40]; strcpy(ev2, jobs[c].evs);
+            c14_hold_state = 3; __sync_synchronize();
+            pthread_mutex_lock(&mu);
+            while (jobs[b].pending) pthread_cond_wait(&cv, &mu);
+            pthread_mutex_unlock(&mu);
+            r1 = jobs[b].ret; c14_hold_state = 0;
+            for (int which = 0; which < 2; which++) {
+                uint8_t *p = which ? r1 : r2; size_t off = 0, sz = req_size[a];
+                long s = p ? slab_of(pools[a], p, &off) : -1; const char *why = "ok";
+                if (!p) why = "null";
+                else if (s < 0) why = "outside-every-slab";
+                else if (off + sz > pools[a]->alloc_size) why = "block-exceeds-slab";
+                else if (req_align[a] && ((uintptr_t)p % req_align[a])) why = "misaligned";
+                else for (size_t k = 0; k < nblk; k++)
+                    if (blks[k].live && p < blks[k].p + req_size[blks[k].pid] && blks[k].p < p + sz) { why = "overlaps-live-block"; break; }
+                blks[nblk].p = p; blks[nblk].pid = (int)a; blks[nblk].live = (p != NULL);
+                if (p && s >= 0 && off + sz <= pools[a]->alloc_size) canary_write(p, sz, nblk);
+                nblk++;
+                printf("A %ld %zu %s %s%s\n", s, off, why, which ? jobs[b].evs : ev2, (which && !held) ? " NOTHELD" : "");
+            }
         } else if (line[0] == 'A' && sscanf(line + 1, "%lu %lu", &a, &b) == 2 && a < MAXP && b < MAXT && pools[a] && nblk < MAXLIVE) {
             void  *r = NULL;
             size_t off = 0, sz = req_size[a];
